@@ -13,13 +13,19 @@ TRACE_CFG = os.path.join(SPEC, 'rainflow', 'Trace_Symmetry.cfg')
 NAN_CODE = 9999
 
 
-def obs(kind, samples, expect_warning=None):
-    """One-piece run on arbitrary input container; returns projection or {'raised':..}; checks the NaN warning."""
+def obs(kind, samples, cuts=None):
+    """Run on arbitrary input container (one piece, or chunked by cuts); returns projection or {'raised':..}; notes the NaN warning."""
     try:
         det = rf.new(kind)
         with warnings.catch_warnings(record=True) as w:
             warnings.simplefilter('always')
-            det.process(samples)
+            if cuts is None:
+                det.process(samples)
+            else:
+                pos = 0
+                for c in cuts:
+                    det.process(samples[pos:pos + c])
+                    pos += c
         p = rf.project(det, kind)
         warned = any('NaN' in str(x.message) for x in w)
         return {'cyc': p['cyc'], 'rv': p['rv'], 'rix': p['rix'], 'warned': warned}
@@ -118,6 +124,8 @@ def transformations(sig, rng, full):
     yield {'op': 'neg'}, fl([-x for x in sig])
     for a, b in ([(2, -3), (3, 5)] if full else [rng.choice([(2, -3), (3, 5), (5, 0), (2, 7)])]):
         yield {'op': 'aff', 'a': a, 'b': b}, fl([a * x + b for x in sig])
+    for e in ([-40, 20] if full else [rng.choice([-40, -30, 20])]):
+        yield {'op': 'scale2', 'e': e}, fl(sig) * (2.0 ** e)
     vals = sorted(set(sig))
     lo, hi = min(sig), max(sig)
     cands = [(p, v) for p in range(1, n + 2) for v in range(lo, hi + 1) if admissible(sig, p, v)]
@@ -150,6 +158,12 @@ def relation_holds(kind, sig, op, b, t):
         if kind == 'F':
             return True, 'n/a'
         return same(map_vals(kind, b, lambda x: op['a'] * x + op['b']), t), 'affine image of values, same indices'
+    if o == 'scale2':
+        if kind == 'F':
+            return True, 'n/a'
+        f = 2.0 ** op['e']
+        return same(map_vals(kind, b, lambda x: x * f), {**t, 'cyc': tuple(tuple(float(v) if i < 2 else v for i, v in enumerate(c)) for c in t['cyc']),
+                                                         'rv': tuple(float(v) for v in t['rv'])}), 'values scaled by 2^e exactly, same indices'
     if o == 'ins':
         return rel_ins(kind, sig, op['p'], op['v'], b, t), 'same values, indices move with the samples'
     if o == 'nan':
@@ -173,14 +187,28 @@ def check_signal(sig, rng, full, model=None, want_traces=False):
             if not same(b, m):
                 drift.append('base run of detector %s on %s differs from model: %s vs %s' % (kind, sig, b, m))
         for op, inp in transformations(sig, rng, full):
-            if kind == 'F' and op['op'] == 'aff':
+            if kind == 'F' and op['op'] in ('aff', 'scale2'):
                 continue
             t = obs(kind, inp)
             n += 1
             ok, what = relation_holds(kind, sig, op, b, t)
             if not ok:
                 viol.append(('C03 relation broken (%s): %s' % (op['op'], what), {'detector': kind, 'signal': sig, 'transformation': op}, b, t))
-            if want_traces and 'raised' not in b and 'raised' not in t:
+            elif op['op'] in ('ins', 'nan', 'series'):
+                # the same transformed input fed in chunks (borders never directly before/after a NaN: a NaN at a chunk end is an "end" of that call)
+                m = len(inp)
+                isn = [bool(x != x) for x in np.asarray(inp, dtype=np.float64)]
+                borders = [k for k in range(1, m) if not isn[k - 1] and not isn[k]]
+                picks = [[k] for k in borders] if (full and op['op'] == 'nan') else ([sorted(rng.sample(borders, min(len(borders), rng.randint(1, 3))))] if borders else [])
+                for pk in picks:
+                    cuts = [b2 - a2 for a2, b2 in zip([0] + pk, pk + [m])]
+                    tc = obs(kind, inp, cuts)
+                    n += 1
+                    okc, whatc = relation_holds(kind, sig, op, b, {**tc, 'warned': True} if 'raised' not in tc else tc)
+                    if not okc:
+                        viol.append(('C03 relation broken when the transformed signal is fed in chunks (%s): %s' % (op['op'], whatc),
+                                     {'detector': kind, 'signal': sig, 'transformation': op, 'chunks': cuts}, b, tc))
+            if want_traces and op['op'] != 'scale2' and 'raised' not in b and 'raised' not in t:
                 e = {'kind': kind, 'sig': sig, 'op': op['op'], 'a': op.get('a', 1), 'b': op.get('b', 0), 'p': op.get('p', 1), 'v': op.get('v', 0),
                      'full': [NAN_CODE if x is None else x for x in op.get('full', sig)],
                      'base': {'cyc': [list(c) for c in b['cyc']], 'rv': list(b['rv']), 'rix': list(b['rix'])},
